@@ -274,10 +274,12 @@ Plans(s) ==
 \* code fact: does MultilinearPC::commit compare the polynomial's number of variables with the key's?
 \* (`open` always did; defect D11 of DESIGN.md)
 MlCommitGuardsNumVars == Tree = "fixed"
+\* the harness hands KZG10 a `Powers` view with the plain powers 0..sup and the hiding powers 0..min(sup+2, maxd+1)
+GammaLen == IF cfg.sup + 3 <= cfg.maxd + 2 THEN cfg.sup + 3 ELSE cfg.maxd + 2
 AdmReqs ==
   CASE Api = "kzg10" ->
          {[op |-> "commit", deg |-> d, hid |-> h, rng |-> r] :
-             d \in {cfg.sup, cfg.sup + 1}, h \in {NONE, 0, 1, cfg.sup - 1, cfg.sup}, r \in BOOLEAN}
+             d \in {cfg.sup, cfg.sup + 1}, h \in {NONE, 0, 1, cfg.sup - 1, cfg.sup, GammaLen - 2, GammaLen - 1}, r \in BOOLEAN}
          \cup {[op |-> "open", deg |-> cfg.sup + 1, hid |-> NONE, rng |-> TRUE]}
     [] Api = "mlpst" ->
          {[op |-> o, nv |-> n] : o \in {"commit", "open"}, n \in {cfg.sup - 1, cfg.sup, cfg.sup + 1}}
@@ -290,7 +292,7 @@ AdmExpect(r) ==
          IF r.deg > cfg.sup THEN "refuse"
          ELSE IF r.hid = NONE THEN "ok"
          ELSE IF ~r.rng THEN "refuse"
-         ELSE IF r.hid >= cfg.sup THEN "refuse"      \* blinding polynomial of degree hid+1 needs hid+2 powers
+         ELSE IF r.hid + 1 >= GammaLen THEN "refuse" \* blinding polynomial of degree hid+1 needs hid+2 hiding powers
          ELSE IF r.hid = 0 THEN "refuse"             \* the property lists a hiding bound of zero; KZG10 accepts it (D13)
          ELSE "ok"
     [] Api = "mlpst" ->
